@@ -18,6 +18,9 @@ PROGRAM = """(set 'counter 0)
 (defun op-cdrsort () (stable-sort < (cdr (lit))))
 (defun op-slicepush () (append! (slice 'vector (lit) 0 2) 9))
 (defun op-append0 () (stable-sort < (append 'vector (lit))))
+(defun op-slicefull () (stable-sort < (slice 'vector (lit) 0 3)))
+(defun op-slicetail () (stable-sort < (slice 'vector (lit) 1 3)))
+(defun op-slicecdr () (stable-sort < (slice 'vector (cdr (lit)) 0 2)))
 (defun op-restsort () (stable-sort < (rest (lit))))
 (defmacro sort-arg (x) (quasiquote (quote (unquote (stable-sort < x)))))
 (defun op-macroarg () (sort-arg (3 1 2)))
@@ -35,7 +38,7 @@ PROGRAM = """(set 'counter 0)
 (defun op-mapsort () (car (map 'list (lambda (x) (stable-sort < x)) (nested))))
 (defun op-foldsort () (foldl (lambda (acc x) (stable-sort < x)) () (nested)))
 """
-FORM = {"sort": "(op-sort)", "cdrsort": "(op-cdrsort)", "slicepush": "(op-slicepush)", "append0": "(op-append0)", "restsort": "(op-restsort)",
+FORM = {"slicefull": "(op-slicefull)", "slicetail": "(op-slicetail)", "slicecdr": "(op-slicecdr)", "sort": "(op-sort)", "cdrsort": "(op-cdrsort)", "slicepush": "(op-slicepush)", "append0": "(op-append0)", "restsort": "(op-restsort)",
         "macroarg": "(op-macroarg)", "define": "(op-define)", "read": "(op-read)", "reload": "(reload)",
         "applyrest": "(op-applyrest)", "applycdr": "(op-applycdr)", "applyreq": "(op-applyreq)", "funcallopt": "(op-funcallopt)",
         "mapsort": "(op-mapsort)", "foldsort": "(op-foldsort)"}
@@ -57,7 +60,7 @@ def show(model_result, op):
         return "(vector %s)" % " ".join(str(x) for x in model_result)
     if op in ("mapsort", "foldsort"):      # the inner list of a nested literal is an unquoted node
         return "(%s)" % " ".join(str(x) for x in model_result)
-    if op == "append0":
+    if op in ("append0", "slicefull", "slicetail", "slicecdr"):
         return "(vector %s)" % " ".join(str(x) for x in model_result)
     return "'(%s)" % " ".join(str(x) for x in model_result)
 
